@@ -185,6 +185,23 @@ def run(prop, tier, seed, replay=None):
                                            ["propupdate", "ab1", [["displayname", "contacts"]]],
                                            ["propupdate", "ab1", [["displayname", "addressbook"]]],
                                            ["propupdate", "ab1", [["displayname", None]]]]),
+        # bare repositories served by one long-lived process: a request that fails half-way (the
+        # delete of an object whose change description cannot be made), histories that return to
+        # an earlier tree (create, delete, create again with the UID that became free)
+        "bare-returns": (HTTP_CONFIGS[7], [["put", "cal1", "keep.ics", "@model:1"],
+                                           ["put", "cal1", "t.ics", "@twice-summary"],
+                                           ["delete", "cal1", "t.ics"],
+                                           ["get", "cal1", "t.ics"],
+                                           ["put", "cal1", "other.ics", "@model:3"],
+                                           ["put", "cal1", "y.ics", "@uid-u-1"],
+                                           ["delete", "cal1", "y.ics"],
+                                           ["put", "cal1", "z.ics", "@uid-u-2"],
+                                           ["get", "cal1", "y.ics"],
+                                           ["delete", "cal1", "z.ics"],
+                                           ["put", "cal1", "y.ics", "@uid-u-2"],
+                                           ["restart"],
+                                           ["get", "cal1", "t.ics"],
+                                           ["multiget", "cal1", [["live", "keep.ics"], ["live", "y.ics"], ["missing", "z.ics"]]]]),
     }
     for name, (cfg, steps) in sorted(DIRECTED.items()):
         tid += 1
